@@ -57,7 +57,8 @@ type p2resp struct {
 type p2case struct {
 	late     []string
 	Kind     string      `json:"kind"`
-	Known    []string    `json:"known"` // failures inside the predicate of a listed finding
+	Known    []string    `json:"known"`                 // failures inside the predicate of a listed finding
+	Pending  []int32     `json:"pending_ids,omitempty"` // ids of the client's OWN requests awaiting their answers during the stream
 	Mgrs     []int       `json:"mgrs"`
 	Reqs     []p2req     `json:"reqs"`
 	Consults []p2consult `json:"consults"`
@@ -293,8 +294,8 @@ func runStream(r *runner, cs *p2case, phases [][]int, workers int, bound time.Du
 	r.w.mu.Unlock()
 	p2Oracle(cs)
 	cs.Oracle = append(cs.Oracle, cs.late...)
-	if p := pendingFutures(); p != 0 {
-		cs.Oracle = append(cs.Oracle, fmt.Sprintf("%d entries left in the pending-future table by response sends", p))
+	if p := pendingFutures(); p != len(cs.Pending) {
+		cs.Oracle = append(cs.Oracle, fmt.Sprintf("%d entries in the pending-future table after the response sends, %d client requests are pending", p, len(cs.Pending)))
 	}
 	cs.Secs = time.Since(t0).Seconds()
 	return cs
@@ -312,6 +313,44 @@ func p2Case(r *runner, rng *hutil.Rng, caseNo, n int, malformed bool) *p2case {
 	cs := &p2case{Kind: "mixed"}
 	cs.Reqs = genP2(rng, caseNo, n, malformed)
 	return runStream(r, cs, [][]int{allIdx(len(cs.Reqs))}, 0, 10*time.Second)
+}
+
+// withPending: the stream runs while `pend` requests of the client itself (SendSyncRequest callers)
+// await their answers; coordinator frame ids are drawn from a pool that includes the ids of those
+// pending requests (both id spaces are small integers counted from 1). Afterwards the pending
+// callers are answered: each must still get its own reply and nothing may be left in the table.
+func withPending(r *runner, rng *hutil.Rng, pend int, share int, build func() *p2case, run func(*p2case) *p2case) *p2case {
+	r.cs.Oracle, r.cs.Events, r.cs.Out = nil, nil, nil
+	var ws []*waiterInfo
+	for j := 0; j < pend; j++ {
+		if wi := r.send(true, false); wi.waiting {
+			ws = append(ws, wi)
+		}
+	}
+	cs := build()
+	for _, wi := range ws {
+		cs.Pending = append(cs.Pending, wi.id)
+	}
+	if len(ws) > 0 {
+		for i := range cs.Reqs {
+			if rng.Intn(share) == 0 {
+				cs.Reqs[i].MsgID = ws[rng.Intn(len(ws))].id
+			}
+		}
+	}
+	cs = run(cs)
+	// the table holds exactly the pending requests while they wait ...
+	for _, wi := range ws {
+		r.reply(wi.id)
+	}
+	for _, o := range r.cs.Oracle {
+		cs.Oracle = append(cs.Oracle, "client request pending during the stream: "+o)
+	}
+	if p := pendingFutures(); p != 0 {
+		cs.Oracle = append(cs.Oracle, fmt.Sprintf("%d entries left in the pending-future table after the pending client requests were answered", p))
+	}
+	r.cs.Oracle, r.cs.Events, r.cs.Out = nil, nil, nil
+	return cs
 }
 
 // hammer: `workers` goroutines walk long runs of healthy commit/rollback requests whose branch
@@ -535,6 +574,18 @@ func Run15(args map[string]string) {
 		return k
 	}
 	cases = append(cases, knownCase(r, 9001))
+	// phase-two requests whose frame ids ARE the ids of pending client requests
+	cases = append(cases, withPending(r, rng.Fork(902), 3, 1, func() *p2case {
+		cs := &p2case{Kind: "collision"}
+		g := rng.Fork(903)
+		for i := 0; i < 12; i++ {
+			q := p2req{Idx: i, Code: []int{3, 5}[g.Intn(2)], Xid: "10.0.0.6:8091:9003", Branch: 9003000000 + int64(i),
+				BType: []int{0, 1, 3}[g.Intn(3)], Resource: "r", Status: g.Intn(11)}
+			q.Expect = stFor(q.Status, q.BType, false, false)
+			cs.Reqs = append(cs.Reqs, q)
+		}
+		return cs
+	}, func(cs *p2case) *p2case { return runStream(r, cs, [][]int{allIdx(len(cs.Reqs))}, 0, 10*time.Second) }))
 	cases = append(cases, attritionCase(r, rng.Fork(901), 9002, hutil.ArgInt(args, "nfail", 48), 12))
 	for h := 0; h < hutil.ArgInt(args, "hammers", 2) && failing() < 1; h++ {
 		cases = append(cases, hammerCase(r, rng.Fork(uint64(910+h)), 9010+h, hutil.ArgInt(args, "hammer", 6000), 8))
@@ -543,6 +594,15 @@ func Run15(args map[string]string) {
 		sz := 1 + rng.Intn(max)
 		if i%9 == 0 {
 			sz = 1 + rng.Intn(3)
+		}
+		if i%3 == 1 {
+			i, sz := i, sz
+			cases = append(cases, withPending(r, rng.Fork(uint64(5000+i)), 1+rng.Intn(3), 3, func() *p2case {
+				cs := &p2case{Kind: "mixed"}
+				cs.Reqs = genP2(rng.Fork(uint64(i)), i+1, sz, i%5 == 4)
+				return cs
+			}, func(cs *p2case) *p2case { return runStream(r, cs, [][]int{allIdx(len(cs.Reqs))}, 0, 10*time.Second) }))
+			continue
 		}
 		cases = append(cases, p2Case(r, rng.Fork(uint64(i)), i+1, sz, i%5 == 4))
 	}
